@@ -16,28 +16,38 @@ func (g *verifGroupAsset) UUID() assets.GroupUUID { return g.uuid }
 func (g *verifGroupAsset) Name() string           { return g.name }
 func (g *verifGroupAsset) Query() string          { return g.query }
 
-// VerifStaticGroup builds a static group.
+// VerifStaticGroup builds a static group (real constructor).
 func VerifStaticGroup(uuid assets.GroupUUID, name string) *Group {
-	return &Group{Group: &verifGroupAsset{uuid, name, ""}}
+	g, _ := NewGroup(nil, nil, &verifGroupAsset{uuid, name, ""})
+	return g
 }
 
-// VerifQueryGroup builds a query based group from a programmatically built
-// query tree (validated against the field assets exactly as ParseQuery does
-// after parsing; the generated parser itself is not encoded).
+// VerifQueryGroup builds a query based group with the real constructor from
+// the text of a programmatically built query tree (contactql.ParseQuery runs
+// on it: the parser model under gosym, the generated parser natively).
 func VerifQueryGroup(env envs.Environment, fields *FieldAssets, uuid assets.GroupUUID, name string, root contactql.QueryNode) *Group {
-	q, err := contactql.VerifNewQuery(env, root, fields)
+	g, err := NewGroup(env, fields, &verifGroupAsset{uuid, name, contactql.Stringify(root)})
 	if err != nil {
 		return nil
 	}
-	return &Group{Group: &verifGroupAsset{uuid, name, contactql.Stringify(root)}, parsedQuery: q, resolver: fields}
+	return g
 }
 
-// VerifGroupAssets builds group assets from ready groups.
-func VerifGroupAssets(groups ...*Group) *GroupAssets {
-	s := &GroupAssets{byUUID: map[assets.GroupUUID]*Group{}}
-	for _, g := range groups {
-		s.all = append(s.all, g)
-		s.byUUID[g.UUID()] = g
+// VerifGroupAssets builds group assets with the real constructor from the
+// assets of the given groups and returns them with the constructed groups in
+// the given order.
+func VerifGroupAssets(env envs.Environment, fields *FieldAssets, groups ...*Group) (*GroupAssets, []*Group) {
+	defs := make([]assets.Group, len(groups))
+	for i, g := range groups {
+		defs[i] = g.Asset()
 	}
-	return s
+	s, broken := NewGroupAssets(env, fields, defs)
+	if len(broken) > 0 {
+		panic("verif: a group did not load")
+	}
+	out := make([]*Group, len(groups))
+	for i, g := range groups {
+		out[i] = s.Get(g.UUID())
+	}
+	return s, out
 }
